@@ -208,7 +208,7 @@ _p('C04', 'model_checking', 'DESIGN.md 5/C04',
    [NORM])
 _p('C08', 'model_checking', 'DESIGN.md 5/C08',
    [BOUNDED_ASSUME, CALLBACK_ASSUME, HIST_ASSUME,
-    "proved (unbounded in the map's size, every key, every stored pointer): cstl_map_insert / find / erase / erase_iterator / init and the element comparison cstl_map_node_cmp against per-key contracts of the tree functions they call (cstl_bintree_find, cstl_rbtree_insert as specification stubs, __cstl_rbtree_erase as a replaced contract). Those tree contracts restate C01 (find returns the held element comparing equal or NULL; insert links exactly the element given; erase unlinks exactly the node given) and are ASSUMED in these proofs; the tree code itself is checked against C01/C02 by step contracts and bounded groups only. cstl_map_clear is bounded only",
+    "proved (unbounded in the map's size, every key, every stored pointer): cstl_map_insert / find / erase / erase_iterator / init and the element comparison cstl_map_node_cmp against per-key contracts of the tree functions they call (cstl_bintree_find, cstl_rbtree_insert as specification stubs, __cstl_rbtree_erase as a replaced contract). Those tree contracts restate C01 (find returns the held element comparing equal or NULL; insert links exactly the element given; erase unlinks exactly the node given) and are ASSUMED in these proofs; the tree code itself is checked against C01/C02 by step contracts and bounded groups only. cstl_map_clear is proved over the two tracked entries (tree clear as a stub), for arbitrary populations it is bounded",
     "scope: every script with <= 3 (thorough: 4) state-changing operations over {insert K[i], insert through a second key pointer K2[i], erase by key, erase by iterator, find} on keys 0..2, any number of non-changing operations interleaved (their no-op-ness is checked bit for bit); clear (with and without callback) on maps from every insertion sequence of <= 4 keys; drain in all 24 erase orders; allocation failure at every insert (scripted allocator)",
     "map nodes come from a static arena (or real malloc with --memory-leak-check in the clear groups); red-black and ordering invariants of the underlying tree are re-checked after every operation"],
    [NORM])
